@@ -62,7 +62,8 @@ package v2
 // (the clauses are on json.Decoder.Decode and backend.Ledger.CreateTransaction, scoped to this function)
 //@ func v2.postTransaction
 //@   requires r != nil
-//@   property C09
+//@   requires !writeRefused
+//@   property C09 C06
 
 // the HTTP entry of a bulk: decodes the body and runs it with the flag the request carries (see ProcessBulk's scoped requires)
 //@ func v2.bulkHandler
@@ -80,4 +81,19 @@ package v2
 // C10: the unforced / forced mode of a revert request reaches the engine as the request states it (contracts/extern/backend.contracts)
 //@ func v2.revertTransaction
 //@   requires r != nil
-//@   property C10
+//@   requires !writeRefused
+//@   property C10 C06
+
+// C06: the metadata write handlers answer a success only when the engine accepted the write (see libs/api: NoContent / Created / Ok)
+//@ func v2.postTransactionMetadata
+//@   requires r != nil && !writeRefused
+//@   property C06
+//@ func v2.deleteTransactionMetadata
+//@   requires r != nil && !writeRefused
+//@   property C06
+//@ func v2.postAccountMetadata
+//@   requires r != nil && !writeRefused
+//@   property C06
+//@ func v2.deleteAccountMetadata
+//@   requires r != nil && !writeRefused
+//@   property C06
